@@ -3,9 +3,17 @@ C01 — discrete mechanisms: the sampler that actually runs is ε-DP.
 
 Every statement is about the executable model `DPL/Model/Discrete.lean` (the very definitions the driver runs on doubles
 against the Python code), instantiated at ℝ.  A sampler is a function of its uniform(s); for single-uniform samplers
-"the probability of output o" is the Lebesgue measure of `{u ∈ [0,1) | sampler u = o}`; for the multi-uniform samplers
-(`bernoulli_neg_exp`, permute-and-flip) the law is the recursion mirroring the branching (`pafLaw`, `stopAt`), each
-comparison `u ≤ t` being a Bernoulli(t) branch and `int(u·n)` a uniform index (`index_law`).
+"the probability of output o" is the Lebesgue measure of `{u ∈ [0,1) | sampler u = o}`, equivalently
+`unif01 (sampler ⁻¹' {o})` with `unif01 = volume.restrict [0,1)` the law of one `random()` draw (§ "push-forward form":
+every set of outputs).  For the multi-uniform samplers (`bernoulli_neg_exp`, permute-and-flip) the law is PROVED as the
+push-forward of the i.i.d. uniform stream measure `streamμ = Measure.infinitePi (fun _ => unif01)` under the model's own
+list functions (`bernNegExp`, `pafRun`) — `bernoulli_neg_exp_stream_law`, `paf_stream_law`, `paf_sampler_dp` — via a
+general composition theorem for stream samplers (`stream_bind_law`, resting on `stream_prefix_independent`, a fact about
+`Measure.infinitePi`).  The older recursion-mirroring statements (`pafLaw`, `stopAt`, `bernOuterLaw`: each comparison
+`u ≤ t` READ as a Bernoulli(t) branch) are kept; the stream laws show that this reading is a theorem, not an assumption.
+Still assumed (trusted base): that `rng.random()` IS an i.i.d. uniform stream, and the real-number carrier.
+NOT covered by the stream laws: the degenerate `sensitivity = 0` branch of permute-and-flip (`bernInf`, infinite γ),
+whose model carries a coin fuel that is exhausted with probability `e^{-fuel}` (see `paf_stream_law_degenerate_full`).
 Proofs of the helper lemmas are in `DPL/Proofs/Discrete*.lean`.
 -/
 import DPL.Proofs.DiscreteExp
@@ -14,6 +22,8 @@ import DPL.Proofs.DiscreteCat
 import DPL.Proofs.DiscreteBern
 import DPL.Proofs.DiscreteGeomDP
 import DPL.Proofs.DiscretePAF
+import DPL.Proofs.DiscreteUnif
+import DPL.Proofs.DiscreteStreamPAF
 
 namespace DPL.C01
 open DPL DPL.Discrete MeasureTheory Set
@@ -298,5 +308,201 @@ theorem hier_utility_range (height : ℕ) (p q : List ℕ) (hp : p.length = heig
   hierUtility_range height p q hp hq hne
 
 example : hierUtility 2 [0, 1] [1, 0] = 2 ∧ hierUtility 2 [0, 1] [0, 0] = 1 := by decide
+
+/-! ### push-forward form: the single-uniform samplers under `unif01`, every set of outputs
+
+`unif01 (f ⁻¹' T)` is the mass that the push-forward of the law of one `random()` draw under the model sampler `f` gives
+to the output set `T` (no measurability side condition: `unif01_preimage`). -/
+
+/-- what the measure-level statements mean: `unif01` is Lebesgue measure on [0,1); `streamμ` the i.i.d. product of it;
+`Ret f b` the event that `f`, run on a long enough prefix of the stream, returns `b` (and the unread rest) -/
+theorem stream_semantics :
+    unif01 = volume.restrict (Ico (0:ℝ) 1) ∧ streamμ = Measure.infinitePi (fun _ : ℕ => unif01) ∧
+    (∀ (A : Set ℝ), unif01 A = volume {u : ℝ | u ∈ Ico (0:ℝ) 1 ∧ u ∈ A}) ∧
+    (∀ {β : Type} (f : List ℝ → Except DErr (β × List ℝ)) (b : β) (ω : ℕ → ℝ),
+      ω ∈ Ret f b ↔ ∃ N rest, f ((List.range N).map ω) = .ok (b, rest)) :=
+  ⟨rfl, rfl, unif01_apply, fun _ _ _ => Iff.rfl⟩
+
+/-- `int(u·n)` as a push-forward: `unif01.map (u ↦ int(u·n))` is uniform on the `n` positions -/
+theorem index_law_unif01 (n : ℕ) (hn : 0 < n) (j : ℕ) (hj : j < n) :
+    (unif01.map (fun u : ℝ => (⌊u * (n : ℝ)⌋).toNat)) {j} = ENNReal.ofReal (1 / (n : ℝ)) :=
+  index_map_unif n hn j hj
+
+/-- `Exponential.randomise`'s selection under `unif01`: result `.ok i` has mass `p_i` -/
+theorem exp_select_law_unif01 (rtol atol : ℝ) (ps : List ℝ) (hnn : ∀ p ∈ ps, 0 ≤ p) (hsum : ps.sum = 1) (i : ℕ)
+    (hi : i < ps.length) :
+    unif01 ((expSelect rtol atol (cumFrom 0 ps)) ⁻¹' {.ok i}) = ENNReal.ofReal ps[i] :=
+  expSelect_law_unif rtol atol ps hnn hsum i hi
+
+/-- `Binary.randomise`: ε-DP on every set of outputs -/
+theorem binary_sampler_dp (eps : ℝ) (heps : 0 ≤ eps) (x x' : Bool) (T : Set Bool) :
+    unif01 ((binaryRandomise eps 0 x) ⁻¹' T)
+      ≤ ENNReal.ofReal (Real.exp eps) * unif01 ((binaryRandomise eps 0 x') ⁻¹' T) :=
+  Discrete.binary_sampler_dp eps heps x x' T
+
+/-- `Geometric` / `GeometricTruncated` / `GeometricFolded`: ε-DP on every set of outputs -/
+theorem geom_sampler_dp (eps : ℝ) (heps : 0 < eps) (sens : ℕ) (x x' : ℤ) (hnb : |x - x'| ≤ (sens : ℤ)) :
+    (∀ T : Set ℤ, unif01 ((geomRandomise eps sens x) ⁻¹' T)
+      ≤ ENNReal.ofReal (Real.exp eps) * unif01 ((geomRandomise eps sens x') ⁻¹' T)) ∧
+    (∀ (lo hi : Bnd) (T : Set (Option ℤ)), unif01 ((geomTruncRandomise eps sens lo hi x) ⁻¹' T)
+      ≤ ENNReal.ofReal (Real.exp eps) * unif01 ((geomTruncRandomise eps sens lo hi x') ⁻¹' T)) ∧
+    (∀ (lo hi : Bnd) (fuel : ℕ) (T : Set (Option ℤ)), unif01 ((geomFoldRandomise eps sens lo hi fuel x) ⁻¹' T)
+      ≤ ENNReal.ofReal (Real.exp eps) * unif01 ((geomFoldRandomise eps sens lo hi fuel x') ⁻¹' T)) :=
+  ⟨fun T => Discrete.geom_sampler_dp eps heps sens x x' hnb T,
+   fun lo hi T => geom_trunc_sampler_dp eps heps sens x x' hnb lo hi T,
+   fun lo hi fuel T => geom_fold_sampler_dp eps heps sens x x' hnb lo hi fuel T⟩
+
+/-- **`Exponential.randomise` as sampled** (weights, normalisation, cumulative sums, first index with `u < cum_i`, the
+`isclose` fallback and the RuntimeError): for neighbouring utility vectors the law of the RESULT (index or error) under
+`unif01` satisfies the ε-DP inequality on every set of results -/
+theorem exp_sampler_dp (eps sens tol rtol atol : ℝ) (heps : 0 < eps) (hsens : 0 < sens) (us us' ms : List ℝ)
+    (hlen : us.length = us'.length) (hne : us ≠ []) (hms : ms = [] ∨ ms.length = us.length)
+    (hm0 : ∀ m ∈ ms, 0 ≤ m) (hpos : ms = [] ∨ ∃ m ∈ ms, 0 < m)
+    (hnb : ∀ i (h1 : i < us.length) (h2 : i < us'.length), |us[i] - us'[i]| ≤ sens) (T : Set (Except DErr ℕ)) :
+    unif01 ((expSelect rtol atol (expCum eps sens false tol us ms)) ⁻¹' T)
+      ≤ ENNReal.ofReal (Real.exp eps) * unif01 ((expSelect rtol atol (expCum eps sens false tol us' ms)) ⁻¹' T) := by
+  have hne' := length_ne_nil hlen hne
+  have hms' : ms = [] ∨ ms.length = us'.length := by rw [← hlen]; exact hms
+  have hsc : expScale eps sens false = some (eps / sens / 2) := by simp [expScale, div_pos hsens heps]
+  have hat := fun i => exp_dp eps sens tol heps hsens us us' ms hlen hne hms hm0 hpos hnb i
+  unfold expCum
+  unfold expPmf at hat ⊢
+  rw [hsc] at hat ⊢
+  have h1 := expPmf_prob (eps / sens / 2) tol us ms hne hms hm0 hpos
+  have h2 := expPmf_prob (eps / sens / 2) tol us' ms hne' hms' hm0 hpos
+  refine select_sampler_dp rtol atol _ _ ?_ h1.1 h1.2 h2.1 h2.2 (Real.exp eps) (Real.exp_pos _).le hat T
+  simp only [normalise, List.length_map, expWeights_length _ tol us ms hms, expWeights_length _ tol us' ms hms', hlen]
+
+example : |([0, 1] : List ℝ)[0] - ([1, 1] : List ℝ)[0]| ≤ 1 ∧ ([0, 1] : List ℝ) ≠ [] :=
+  ⟨by norm_num, List.cons_ne_nil _ _⟩
+
+/-! ### the multi-uniform samplers under the uniform stream measure -/
+
+/-- **a consumed prefix is independent of the rest of the stream**: under an i.i.d. product measure a box on the first
+`k` coordinates and any event of the stream shifted by `k` are independent, and the shifted stream has the same law -/
+theorem stream_prefix_independent {X : Type} [MeasurableSpace X] (P : Measure X) [IsProbabilityMeasure P] (k : ℕ)
+    (a : ℕ → Set X) (ha : ∀ i, MeasurableSet (a i)) (E : Set (ℕ → X)) (hE : MeasurableSet E) :
+    Measure.infinitePi (fun _ : ℕ => P) (Set.pi (Finset.range k : Set ℕ) a ∩ (fun ω n => ω (n + k)) ⁻¹' E)
+      = Measure.infinitePi (fun _ : ℕ => P) (Set.pi (Finset.range k : Set ℕ) a)
+        * Measure.infinitePi (fun _ : ℕ => P) E :=
+  box_inter_shift P k a ha E hE
+
+/-- **sequential composition of stream samplers**: if the returning runs of `f` are countably many disjoint boxes
+(`BoxSpec`: path `π` reads `len π` uniforms, the `i`-th of which must lie in `box π i`, and returns `out π` with the
+rest unread), then `f` followed by any continuation `K` on the unread rest returns `c` with probability
+`Σ_π (Π_{i<len π} unif01 (box π i)) · P[K (out π) returns c]` -/
+theorem stream_bind_law {β γ ι : Type} [Countable ι] (f : List ℝ → Except DErr (β × List ℝ))
+    (K : β → List ℝ → Except DErr (γ × List ℝ)) (len : ι → ℕ) (out : ι → β) (box : ι → ℕ → Set ℝ)
+    (spec : BoxSpec f len out box) (hbox : ∀ π i, MeasurableSet (box π i))
+    (hdisj : Pairwise (Function.onFun Disjoint (fun π => Set.pi (Finset.range (len π) : Set ℕ) (box π))))
+    (c : γ) (hK : ∀ π, MeasurableSet (Ret (K (out π)) c)) :
+    MeasurableSet (Ret (bindS f K) c) ∧
+    streamμ (Ret (bindS f K) c)
+      = ∑' π, (∏ i ∈ Finset.range (len π), unif01 (box π i)) * streamμ (Ret (K (out π)) c) :=
+  bind_law f K len out box spec hbox hdisj c hK
+
+/-- the inner loop of `bernoulli_neg_exp` has box paths: `u_0 ≤ γ/1, …, u_{n-1} ≤ γ/n, u_n > γ/(n+1)`, result
+`(n+1) % 2`; under the stream measure path `n` has probability `stopAt γ n` (the product of the `unif01` masses of the
+thresholds — this is where "`u ≤ t` is a Bernoulli(t) branch" is proved) -/
+theorem bernoulli_loop_paths (γ : ℝ) :
+    BoxSpec (fun l => bernLoop γ l 1) (fun n : ℕ => n + 1) (fun n => (1 + n) % 2 == 1) (bernBox γ) ∧
+    (0 ≤ γ → γ ≤ 1 → ∀ n, ∏ i ∈ Finset.range (n + 1), unif01 (bernBox γ n i) = ENNReal.ofReal (stopAt γ n)) :=
+  ⟨bernLoop_spec γ, fun h0 h1 n => bernBox_prob γ h0 h1 n⟩
+
+/-- **`bernoulli_neg_exp(γ)` over the i.i.d. uniform stream**: the model function `bernNegExp` (inner loop, and for
+`γ > 1` the outer loop of unit decrements) returns 1 with probability `exp(−γ)`, 0 with probability `1 − exp(−γ)`, and
+therefore returns with probability one.  `fuel` bounds the outer loop of the model deterministically (`⌈γ⌉` rounds):
+it is never exhausted when it exceeds `γ`. -/
+theorem bernoulli_neg_exp_stream_law (fuel : ℕ) (γ : ℝ) (h0 : 0 ≤ γ) (hf : γ < fuel) :
+    streamμ (Ret (bernNegExp fuel γ) true) = ENNReal.ofReal (Real.exp (-γ)) ∧
+    streamμ (Ret (bernNegExp fuel γ) false) = ENNReal.ofReal (1 - Real.exp (-γ)) ∧
+    streamμ (Ret (bernNegExp fuel γ) true ∪ Ret (bernNegExp fuel γ) false)ᶜ = 0 :=
+  ⟨(bernNegExp_stream_law fuel γ h0 hf).2.2.1, (bernNegExp_stream_law fuel γ h0 hf).2.2.2,
+    bernNegExp_returns_ae fuel γ h0 hf⟩
+
+example : (0:ℝ) ≤ 3 / 2 ∧ (3 / 2 : ℝ) < ((2 : ℕ) : ℝ) := by norm_num
+
+/-- … and whatever runs next on the unread rest of the stream sees a fresh stream, independent of the coin -/
+theorem bernoulli_neg_exp_then (fuel : ℕ) (γ : ℝ) (h0 : 0 ≤ γ) (hf : γ < fuel) {β : Type}
+    (K : Bool → List ℝ → Except DErr (β × List ℝ)) (c : β) (hK : ∀ b, MeasurableSet (Ret (K b) c)) :
+    streamμ (Ret (bindS (bernNegExp fuel γ) K) c)
+      = ENNReal.ofReal (Real.exp (-γ)) * streamμ (Ret (K true) c)
+        + ENNReal.ofReal (1 - Real.exp (-γ)) * streamμ (Ret (K false) c) :=
+  (bernNegExp_bind_law fuel γ h0 hf K c hK).2
+
+/-- one round of permute-and-flip: `pafRun` is the index draw, then the coin of the drawn candidate, then either the
+return of that candidate or the next round on the unread rest -/
+theorem paf_round_structure (logp : List (Option ℝ)) (coinFuel fuel : ℕ) (ids : List ℕ) (hne : ids ≠ []) :
+    pafRun logp coinFuel (fuel + 1) ids
+      = bindS (idxDraw ids) (fun idx => bindS (pafCoin logp coinFuel idx)
+          (fun b => if b then retS idx else pafRun logp coinFuel fuel (ids.erase idx))) :=
+  pafRun_succ logp coinFuel fuel ids hne
+
+/-- **the law of the model's `pafRun` over the uniform stream is its `pafLaw`** for finite log-probabilities `≤ 0`
+(coin fuel above every `−logp`), any round fuel and any list of remaining candidates -/
+theorem paf_run_stream_law (logp : List (Option ℝ)) (coinFuel : ℕ)
+    (hlog : ∀ o ∈ logp, ∃ lp : ℝ, o = some lp ∧ lp ≤ 0 ∧ -lp < coinFuel) (fuel : ℕ) (ids : List ℕ)
+    (hids : ∀ i ∈ ids, i < logp.length) (r : ℕ) :
+    streamμ (Ret (pafRun logp coinFuel fuel ids) r)
+      = ENNReal.ofReal (pafLaw (fun i => (pafHeads logp).getD i 0) fuel ids r) :=
+  (pafRun_stream_law logp coinFuel hlog fuel ids hids r).2
+
+/-- **`PermuteAndFlip.randomise` over the uniform stream** (finite scale `s ≥ 0`, i.e. `sensitivity > 0`): the model
+sampler returns candidate `r` with probability `pafPmf(heads)[r]`, the closed-form law of `paf_dp` -/
+theorem paf_stream_law (s : ℝ) (hs : 0 ≤ s) (us : List ℝ) (coinFuel : ℕ)
+    (hcf : ∀ x ∈ us, s * (pyMax us - x) < coinFuel) (r : ℕ) :
+    streamμ (Ret (pafRun (pafLogProbs (some s) us) coinFuel us.length (List.range us.length)) r)
+      = ENNReal.ofReal ((pafPmf (pafHeads (pafLogProbs (some s) us))).getD r 0) :=
+  (Discrete.paf_stream_law s hs us coinFuel hcf r).2
+
+/-- **permute-and-flip is ε-DP as a sampler**: for neighbouring utility vectors and every set `S` of candidates, the
+probability over the uniform stream that the model's `pafRun` returns a candidate in `S` satisfies the ε-DP inequality -/
+theorem paf_sampler_dp (eps sens : ℝ) (heps : 0 < eps) (hsens : 0 < sens) (us us' : List ℝ)
+    (hlen : us.length = us'.length) (hne : us ≠ [])
+    (hnb : ∀ i (h1 : i < us.length) (h2 : i < us'.length), |us[i] - us'[i]| ≤ sens) (coinFuel : ℕ)
+    (hcf : ∀ x ∈ us, eps / sens / 2 * (pyMax us - x) < coinFuel)
+    (hcf' : ∀ x ∈ us', eps / sens / 2 * (pyMax us' - x) < coinFuel) (S : Set ℕ) :
+    streamμ (⋃ r ∈ S, Ret (pafRun (pafLogProbs (expScale eps sens false) us) coinFuel us.length
+        (List.range us.length)) r)
+      ≤ ENNReal.ofReal (Real.exp eps) *
+        streamμ (⋃ r ∈ S, Ret (pafRun (pafLogProbs (expScale eps sens false) us') coinFuel us'.length
+          (List.range us'.length)) r) :=
+  Discrete.paf_sampler_dp eps sens heps hsens us us' hlen hne hnb coinFuel hcf hcf' S
+
+/-- non-vacuity of the hypotheses of `paf_sampler_dp` (ε = 1, sensitivity 1, utilities [0,1] vs [1,1], coin fuel 1) -/
+example : (∀ x ∈ ([0, 1] : List ℝ), (1:ℝ) / 1 / 2 * (pyMax ([0, 1] : List ℝ) - x) < ((1 : ℕ) : ℝ)) ∧
+    (∀ x ∈ ([1, 1] : List ℝ), (1:ℝ) / 1 / 2 * (pyMax ([1, 1] : List ℝ) - x) < ((1 : ℕ) : ℝ)) := by
+  constructor <;> intro x hx <;> simp at hx <;> rcases hx with rfl | rfl <;> norm_num [pyMax, pyMaxFrom]
+
+/-- monotonic utilities: scale `ε/sensitivity`, both directions -/
+theorem paf_sampler_dp_monotonic (eps sens : ℝ) (heps : 0 < eps) (hsens : 0 < sens) (us us' : List ℝ)
+    (hlen : us.length = us'.length) (hne : us ≠ [])
+    (hnb : ∀ i (h1 : i < us.length) (h2 : i < us'.length), us[i] ≤ us'[i] ∧ us'[i] ≤ us[i] + sens) (coinFuel : ℕ)
+    (hcf : ∀ x ∈ us, eps / sens * (pyMax us - x) < coinFuel)
+    (hcf' : ∀ x ∈ us', eps / sens * (pyMax us' - x) < coinFuel) (S : Set ℕ) :
+    streamμ (⋃ r ∈ S, Ret (pafRun (pafLogProbs (expScale eps sens true) us) coinFuel us.length
+        (List.range us.length)) r)
+      ≤ ENNReal.ofReal (Real.exp eps) *
+        streamμ (⋃ r ∈ S, Ret (pafRun (pafLogProbs (expScale eps sens true) us') coinFuel us'.length
+          (List.range us'.length)) r) ∧
+    streamμ (⋃ r ∈ S, Ret (pafRun (pafLogProbs (expScale eps sens true) us') coinFuel us'.length
+        (List.range us'.length)) r)
+      ≤ ENNReal.ofReal (Real.exp eps) *
+        streamμ (⋃ r ∈ S, Ret (pafRun (pafLogProbs (expScale eps sens true) us) coinFuel us.length
+          (List.range us.length)) r) :=
+  Discrete.paf_sampler_dp_monotonic eps sens heps hsens us us' hlen hne hnb coinFuel hcf hcf' S
+
+/-- NOT proved: the stream law of the degenerate branch (`sensitivity = 0`, infinite scale; log-probabilities `0` /
+`−∞`, the latter handled by `bernInf`, i.e. `bernoulli_neg_exp(+∞)`).  In Python that coin returns 0 with probability
+one (it stops at the first failing unit coin); the model's `bernInf` carries a fuel and reports `exhausted` after
+`coinFuel` consecutive unit successes, an event of probability `e^{−coinFuel} > 0`, so the statement needs that slack.
+MISSING: the box paths of `bernInf` (a `coinFuel`-fold composition of `bernLoop 1`) and the resulting bound; the rest of
+the argument is `paf_run_stream_law` verbatim.  (The DP claim for that branch is `paf_dp_degenerate`: neighbours within
+sup-norm 0 are equal.) -/
+def paf_stream_law_degenerate_full : Prop :=
+  ∀ (us : List ℝ) (coinFuel : ℕ) (r : ℕ),
+    let law := ENNReal.ofReal ((pafPmf (pafHeads (pafLogProbs (none : Option ℝ) us))).getD r 0)
+    let run := streamμ (Ret (pafRun (pafLogProbs (none : Option ℝ) us) coinFuel us.length (List.range us.length)) r)
+    run ≤ law ∧ law ≤ run + ENNReal.ofReal ((us.length : ℝ) * Real.exp (-(coinFuel : ℝ)))
 
 end DPL.C01
